@@ -38,6 +38,10 @@ from stdnum.exceptions import *
 from stdnum.util import clean, isdigits
 
 
+# the characters that can be used in the first two positions (ASCII only)
+_alphabet = '0123456789ABCDEFGHIJKLMNOPQRSTUVWXYZ'
+
+
 def compact(number):
     """Convert the number to the minimal representation. This strips the
     number of any valid separators and removes surrounding whitespace."""
@@ -53,7 +57,7 @@ def checksum(number):
 def validate(number):
     """Check if the number is a valid banknote serial number."""
     number = compact(number)
-    if not number[:2].isalnum() or not isdigits(number[2:]):
+    if not all(x in _alphabet for x in number[:2]) or not isdigits(number[2:]):
         raise InvalidFormat()
     if len(number) != 12:
         raise InvalidLength()
